@@ -4,6 +4,14 @@ import json, os
 V = os.path.dirname(os.path.dirname(os.path.abspath(__file__)))
 
 CHECKS = {
+ "C01": dict(cat="model_checking", ref="DESIGN.md section 5 C01",
+   text="TLA+ module Ed25519 models verification over the abstract cyclic group Z_{8q}; TLC checks on every (A string, R string, S, k, length) that the staged verifier of the code equals the ZIP-215 definition, is invariant under all torsion shifts and encoding classes, rejects S >= q and accepts everything the cofactorless verifier accepts. TLC generates the scenario table (checked to have class-determined verdicts); the driver concretises it on the real curve with known discrete logarithms, and TLC recomputes every verdict in the exponent (S < L, S = r + k*a mod L with certified reductions) - independently of the curve arithmetic under test - incl. every S+jL fitting 256 bits, S at the 2^252/L/2^253 boundaries (via small-order keys), single-bit flips and random bytes, and checks crypto/ed25519-accepted => accepted.",
+   note="Trusted: TLC/SANY/CommunityModules, Go toolchain, SHA-512 as fact provider, filippo.io/edwards25519 for constructing test points and classifying undecodable strings. Bit-flipped R/A and random inputs are expected to be rejected on cryptographic grounds. Real-size inputs are class-complete but sampled.",
+   tech="explicit TLA+ spec over an abstract group + exhaustive TLC model + TLC-generated scenario table concretised + exponent-level trace validation with BigNat certificates"),
+ "C07": dict(cat="exploration", ref="DESIGN.md section 5 C07",
+   text="Model-guided exploration: the RFC 8032 signing pipeline is specified in TLA+ over SHA-512 facts and TLC recomputes S = (r + k*s) mod L (certified reductions, clamping at byte level) for every recorded signature; private key, public key and signature are compared byte for byte with crypto/ed25519, plus determinism, Verify of the own signature and the crypto.Signer clauses. Message lengths sit on every SHA-512 block/padding boundary of both hashes; all keys pass through one reused key buffer so that history dependence shows.",
+   note="Differential by nature (crypto/ed25519 is the named reference; R and A encodings are its outputs); SHA-512 values are facts. Sampling of seeds/messages, not exhaustive.",
+   tech="explicit TLA+ spec of the signing pipeline + trace validation with hash facts and BigNat certificates + differential comparison"),
  "C02": dict(cat="model_checking", ref="DESIGN.md section 5 C02",
    text="TLA+ module Slip10 prescribes, for master and child derivation, which key and data every HMAC-SHA512 candidate must be computed over, the retry data, the curve's answer (ECDSA: parse256(I_L) >= n or zero key => invalid; ed25519: always valid) and which derivations are undefined. TLC model-checks the retry procedure over all answer scripts (first decided candidate wins, retry only after invalid-key, permanent error returned). All scripts are driven through the real slip10 code by a scripted toy Curve plug-in that logs every candidate it is asked about; real-curve derivations (seeds of any length, mixed hardened/normal paths, private and public parents) are validated by TLC from HMAC/point/hash160 facts with BigNat arithmetic, incl. fingerprints, serialised public keys and path composition.",
    note="Trusted: TLC/SANY/CommunityModules, Go toolchain; crypto/hmac, sha256, ripemd160 and the point(k) providers (crypto/elliptic, crypto/ed25519, driver's affine secp256k1 reference) supply facts whose arguments TLC dictates. Retry branches on real curves are unreachable (2^-128) and covered by the plug-in curve only. One known finding (ed25519 non-hardened derivation) is reported as KNOWN-FINDING.",
